@@ -29,17 +29,12 @@ theorem structureCheck_eval {g : Forest} {p c : Nat} {pv cv : Value}
 
 theorem fi_addConsolidate_nontext {g : Forest} {node : Nat} (prev next : Option Nat)
     (h : g.textOf node = none) : g.addConsolidate node prev next = (g, false) := by
-  unfold addConsolidate
-  split
-  · rfl
-  · rw [h]
+  rw [addConsolidate_eq_old]; exact addConsolidateOld_not_text h _ _
 
 theorem addConsolidate_none_none (g : Forest) (node : Nat) :
     g.addConsolidate node none none = (g, false) := by
-  unfold addConsolidate
-  split
-  · rfl
-  · cases g.textOf node <;> rfl
+  rw [addConsolidate_eq_old, selfPrev_none, selfNext_none]
+  exact addConsolidateOld_none_none g node
 
 theorem textOf_none_of_value {g : Forest} {x : Nat} {v : Value} (hv : g.value? x = some v)
     (ht : v.isText = false) : g.textOf x = none := by
